@@ -61,7 +61,7 @@ def make_manager(asyncio_):
 
 KINDS = ['valid-emit', 'own-echo', 'foreign-ack', 'ack-without-host', 'ack-unknown-id', 'ack-raising-callback',
          'ack-cancelled-callback', 'garbage-bytes', 'non-dict', 'missing-fields', 'wrong-types', 'unknown-method',
-         'emit-that-raises', 'listen-raises', 'valid-room-ops', 'ack-missing-args']
+         'emit-that-raises', 'listen-raises', 'valid-room-ops', 'ack-missing-args', 'remote-disconnect-handler-fails']
 ENCODINGS = ['dict', 'pickle', 'json-str', 'json-bytes']
 
 
@@ -102,8 +102,35 @@ def h(t, part):
             def oc(sid, environ):
                 return None
         w.s.on('connect', oc)
+        # a second local client on a namespace served by a class-based namespace whose disconnect handler fails
+        dmode = {'legacy': False, 'how': 'boom'}
+        import socketio as _sio
+        if asyncio_:
+            class C(_sio.AsyncNamespace):
+                async def on_connect(self, sid, environ):
+                    return None
+
+                async def on_disconnect(self, sid, *reason):
+                    if dmode['legacy'] and reason:
+                        raise TypeError('on_disconnect() takes 2 positional arguments but 3 were given')
+                    if dmode['how'] == 'cancelled':
+                        raise real_asyncio.CancelledError()
+                    raise Boom('disconnect handler')
+        else:
+            class C(_sio.Namespace):
+                def on_connect(self, sid, environ):
+                    return None
+
+                def on_disconnect(self, sid, *reason):
+                    if dmode['legacy'] and reason:
+                        raise TypeError('on_disconnect() takes 2 positional arguments but 3 were given')
+                    raise Boom('disconnect handler')
+        w.s.register_namespace(C('/c'))
         w.open('e0')
         sid = w.connect('e0', '/')
+        w.open('e1')
+        sid_c = w.connect('e1', '/c')
+        w.take('e1')
         cbs = []
         raising = {'mode': None}
 
@@ -190,6 +217,11 @@ def h(t, part):
                 m.chan.append(encode({'method': 'enter_room', 'sid': sid, 'namespace': '/', 'room': 'lobby-%d' % k,
                                       'host_id': other}, enc))
                 expect.setdefault('rooms', []).append('lobby-%d' % k)
+            elif kind == 'remote-disconnect-handler-fails':
+                # another host asks for the disconnection of a local client; the application's handler for it fails
+                dmode['legacy'] = bool(v % 2)
+                dmode['how'] = 'cancelled' if (asyncio_ and v >= 2) else 'boom'
+                m.chan.append(encode({'method': 'disconnect', 'sid': sid_c, 'namespace': '/c', 'host_id': other}, enc))
             elif kind == 'ack-missing-args':
                 m.chan.append(encode({'method': 'callback', 'host_id': me, 'sid': sid, 'namespace': '/', 'id': ack_id[0]}, enc))
             m.chan.append(sentinel(k))
